@@ -93,3 +93,10 @@ CLAIMS["C13"] = (
     "arguments keep the destination type; expansion depth is bounded by a diagnosed error. Passing says the argument machinery is wired as designed, not "
     "that a macro call behaves like its hand-inlined body - that needs the compiled machines. Found and repaired F-10, F-11.",
     "Trusted: shape recognisers for the ~10 statements involved (an unrecognised rewrite is reported). Not decided: behavioural equivalence with inlining.")
+CLAIMS["C16"] = (
+    "dataflow / builder-chain rules over WaitMatch.convert (the single mechanism); restart-automaton equivalence not decided",
+    "Static, necessary conditions only: the wait's loop ranges over every transition of the converted sub-match that points to the no-match handler "
+    "(the handler the sub-match was converted with) and unconditionally retargets each to the pattern start, so nothing inside a wait can reach an "
+    "enclosing handler or FAIL; the retargeted transition consumes exactly at the start state and re-examines the byte elsewhere; wait wraps any match "
+    "and forwards its actions. Passing says the mechanism is wired as designed, not that the result equals the restart automaton for every pattern.",
+    "Trusted: builder-chain recogniser. Not decided: restart-automaton equivalence; effects of later optimisation passes on the retargeted machine.")
